@@ -81,7 +81,7 @@ def oracle(c, impl, spec, model):
 
 
 def run(ck):
-    ck.prove("Properties_C09", THEOREMS)
+    ck.prove(["Properties_C09", "Properties_SrcAes"], THEOREMS + ['SRC_aes_block', 'SRC_aes_block_is_fips197'])
     exe = ck.impl_driver()
     cases = gen_cases(ck)
     for k, pt, cls in structured_state_cases(ck):
